@@ -231,9 +231,33 @@ def main(rep):
         rep.cov["exhaustive"] = False
         rep.cov["rule"] = ("all add/pop sequences of length %d over 3 strings colliding in 2- and 4-bucket tables (size guess 0 and 1), "
                            "counts of all 3 strings and is_empty observed after every step; random 50-400 step sequences over pools of "
-                           "random byte strings (bytes >= 128 included), size guesses {0,1,2,5,60}; hash and hash-cache sequences; pairs of distinct strings with the same full 64-bit hash; strings of 4095 to 6100 bytes that agree on their first 4096; insertions with a failing allocation (monitor only). "
+                           "random byte strings (bytes >= 128 included), size guesses {0,1,2,5,60}; hash and hash-cache sequences; pairs of distinct strings with the same full 64-bit hash; strings of 4095 to 6100 bytes that agree on their first 4096; insertions with a failing allocation (monitor only); one string inserted and removed 70 000 times, observed around 255 / 256 / 65 535 / 65 536 (monitor only). "
                            "non-trivial = contains at least one removal; distinct by script text") % (6 if rep.tier == "quick" else 7)
         rep.cov["samples"] = [cases[0][1].split("\n")[:8], cases[-1][1].split("\n")[:8]]
+        # multiplicities beyond the small: one string inserted 70 000 times (a path queued again and again before the
+        # queue drains), observed around 255 / 256 / 65 535 / 65 536, then removed again (monitor only: the reference
+        # is a dictionary)
+        hot, other = hexs("/home/u/hot.log"), hexs("/home/u/other")
+        ql = "q %s %s" % (hot, other)
+        lines = ["new 1", "add %s" % other]
+        marks = {254, 255, 256, 257, 65534, 65535, 65536, 65537, 70000}
+        for i in range(1, 70001):
+            lines.append("add %s" % hot)
+            if i in marks:
+                lines.append(ql)
+        for i in range(1, 70001):
+            lines.append("pop %s" % hot)
+            if (70000 - i) in marks or i == 70000:
+                lines.append(ql)
+        lines += ["pop %s" % other, ql]
+        longcase = ("long0", "\n".join(lines), "long")
+        limpl, _, lproblems = vlib.correspond(exe_impl, None, "set", [(longcase[0], longcase[1])])
+        bad = monitor(longcase[1].split("\n"), limpl.get("long0") or [])
+        if bad is not None:
+            rep.violation("counts", {"case": "long0", "script": ["new 1", "add %s" % other, "add %s   (70000 times, '%s' after 254, 255, 256, 257, 65534, 65535, 65536, 65537, 70000 insertions)" % (hot, ql), "pop ... (70000 times)"],
+                                     "implementation": limpl.get("long0"), "what": "one string inserted 70 000 times: " + bad}, found_input=True)
+            found = True
+        rep.cov["evaluations"] = len(cases) + 1
         validated = 0
         # first pass: the monitor on every case (a concrete failing input wins); second: model against implementation
         for cid, script, kind in cases:
